@@ -2,6 +2,7 @@ package apprig
 
 import (
 	"crypto/ed25519"
+	"encoding/base64"
 	"fmt"
 	"sort"
 
@@ -21,19 +22,21 @@ type GenParams struct {
 // genState tracks what the generator believes, only to aim transactions at interesting places; it
 // is never used as an oracle.
 type genState struct {
-	u          *Universe
-	r          *hx.Rand
-	chain      string
-	nonce      uint64
-	used       []uint64
-	cands      []Payload // candidate batch configs
-	eonGuess   uint64
-	aim        *Impl
-	script     []*TxSpec // scripted transactions aimed at one sentence of a property; served first
-	aimKeypers []common.Address
-	valKeys    [][]byte
-	encKeys    [][]byte
-	maxIndex   uint64
+	u           *Universe
+	r           *hx.Rand
+	chain       string
+	nonce       uint64
+	used        []uint64
+	cands       []Payload // candidate batch configs
+	eonGuess    uint64
+	aim         *Impl
+	script      []*TxSpec // scripted transactions aimed at one sentence of a property; served first
+	aimKeypers  []common.Address
+	valKeys     [][]byte
+	encKeys     [][]byte
+	maxIndex    uint64
+	offSubgroup []byte
+	made        []*TxSpec // signed transactions generated so far
 }
 
 func valKey(i int) []byte {
@@ -279,6 +282,14 @@ func (g *genState) payload() Payload {
 		for i := 0; i < n; i++ {
 			if r.Chance(8) && n < 17 {
 				seq = append(seq, r.Bytes(96))
+			} else if r.Chance(10) && n < 17 {
+				// on the curve, outside the subgroup
+				if g.offSubgroup == nil {
+					g.offSubgroup = OffSubgroupGamma(g.u.ValidGamma(1))
+				}
+				if g.offSubgroup != nil {
+					seq = append(seq, g.offSubgroup)
+				}
 			} else {
 				seq = append(seq, g.u.ValidGamma(r.Intn(4+n)))
 			}
@@ -523,6 +534,16 @@ func (g *genState) tx() *TxSpec {
 		g.script = g.script[1:]
 		return t
 	}
+	if len(g.made) > 0 && r.Chance(3) {
+		// the signature of an earlier transaction (checked or executed) in front of another payload
+		a := g.made[r.Intn(len(g.made))].Bytes(g.u)
+		b := g.validTx().Bytes(g.u)
+		ra, err1 := base64.RawURLEncoding.DecodeString(string(a))
+		rb, err2 := base64.RawURLEncoding.DecodeString(string(b))
+		if err1 == nil && err2 == nil && len(ra) > 65 && len(rb) > 65 {
+			return &TxSpec{Garbage: []byte(base64.RawURLEncoding.EncodeToString(append(append([]byte{}, ra[:65]...), rb[65:]...)))}
+		}
+	}
 	if r.Chance(4) {
 		switch r.Intn(4) {
 		case 0:
@@ -538,7 +559,11 @@ func (g *genState) tx() *TxSpec {
 			return &TxSpec{Garbage: b}
 		}
 	}
-	return g.validTx()
+	t := g.validTx()
+	if len(g.made) < 64 {
+		g.made = append(g.made, t)
+	}
+	return t
 }
 
 func (g *genState) validTx() *TxSpec {
